@@ -228,6 +228,10 @@ func c36IndexDir(idx ssa.Value) int {
 					down = true // len(s)-i-1
 					return
 				}
+				if sign > 0 && c36LenLike(x.X) {
+					down = true // s[len(s)-1]: taken from the back
+					return
+				}
 				if sign > 0 {
 					down = true
 				} else if sign < 0 {
@@ -1525,6 +1529,50 @@ func runC36Intake(c *an.Ctx, fns []*ssa.Function, fFilter, fHave *types.Var, mGe
 					dontHave[a] = true
 				}
 			}
+			// a DONT_HAVE task is built only where the entry asked for DONT_HAVE: a builder that tests
+			// the entry's SendDontHave must do so on every way to the task literal
+			for a := range dontHave {
+				for _, h := range an.WithClosures(a) {
+					var asks []ssa.Value
+					tested := false
+					an.Instrs(h, func(in ssa.Instruction) {
+						var f *types.Var
+						var v ssa.Value
+						switch x := in.(type) {
+						case *ssa.Field:
+							f, _ = an.FieldOf(x)
+							v = x
+						case *ssa.UnOp:
+							if x.Op == token.MUL {
+								if fa, ok := x.X.(*ssa.FieldAddr); ok {
+									f, _ = an.FieldOf(fa)
+									v = x
+								}
+							}
+						}
+						if f == nil || f.Name() != "SendDontHave" || !an.TypeIs(f.Type(), "", "bool") && f.Type().String() != "bool" {
+							return
+						}
+						if f.Pkg() == nil || !strings.HasSuffix(f.Pkg().Path(), c34Msg) {
+							return
+						}
+						asks = append(asks, v)
+						for _, r := range *v.Referrers() {
+							if _, isIf := r.(*ssa.If); isIf {
+								tested = true
+							}
+						}
+					})
+					if !tested {
+						continue
+					}
+					for _, st := range an.FieldStores(h, fHave) {
+						c.Check(an.GuardedByVal(h, st, an.BoolEdges(h, asks, true), an.BoolIs(asks, true)), "O4", "R-DOM", an.FuncName(fn), "DONT_HAVE-task<=entry.SendDontHave", st.Pos(),
+							"a DONT_HAVE task is queued only for an entry that asked for DONT_HAVE",
+							"the DONT_HAVE task builder tests the entry's SendDontHave flag but can reach the task literal with the flag false: a peer that did not ask for DONT_HAVE is sent one")
+					}
+				}
+			}
 			isEntry := func(t types.Type) bool {
 				return an.TypeIs(t, c34Msg, "Entry") || an.TypeIs(t, "bitswap/client/wantlist", "Entry")
 			}
@@ -1597,6 +1645,62 @@ func runC36Intake(c *an.Ctx, fns []*ssa.Function, fFilter, fHave *types.Var, mGe
 			}
 			for _, d := range denials {
 				track(d)
+			}
+			// cancel entries reach the ledger: the CID of an entry of the cancel list is handed to
+			// peerLedger.CancelWant (directly or in a package-local helper that gets the list / entry / CID)
+			{
+				reached := false
+				seenC := map[ssa.Value]bool{}
+				var fwd func(v ssa.Value, depth int)
+				fwd = func(v ssa.Value, depth int) {
+					if v == nil || seenC[v] || reached || depth > 12 {
+						return
+					}
+					seenC[v] = true
+					refs := v.Referrers()
+					if refs == nil {
+						return
+					}
+					for _, r := range *refs {
+						switch x := r.(type) {
+						case *ssa.IndexAddr, *ssa.Field, *ssa.FieldAddr, *ssa.Slice, *ssa.Phi, *ssa.ChangeType:
+							fwd(x.(ssa.Value), depth+1)
+						case *ssa.UnOp:
+							if x.Op == token.MUL {
+								fwd(x, depth+1)
+							}
+						case *ssa.Store:
+							if x.Val == v {
+								if cell, ok := x.Addr.(*ssa.Alloc); ok {
+									fwd(cell, depth+1)
+								}
+							}
+						case ssa.CallInstruction:
+							cc := x.Common()
+							if c36R.L("CancelWant").Match(an.Callee(x)) {
+								a := an.Args(x)
+								if len(a) == 2 && a[1] == v {
+									reached = true
+								}
+								continue
+							}
+							if g := an.Callee(x).Static; g != nil && g.Blocks != nil && g.Pkg == fn.Pkg {
+								for i, a := range cc.Args {
+									if a == v && i < len(g.Params) {
+										fwd(g.Params[i], depth+1)
+									}
+								}
+							}
+						}
+					}
+				}
+				cancelsRes := an.Result(sp, 1)
+				for _, cv := range cancelsRes {
+					fwd(cv, 0)
+				}
+				c.Check(len(cancelsRes) > 0 && reached, "O4", "R-FLOW", name, "cancels=>peerLedger.CancelWant", sp.Pos(),
+					"the CID of every cancel entry is cancelled in the peer ledger",
+					"the cancel entries of an incoming message never reach peerLedger.CancelWant: the ledger keeps a want the peer cancelled, and a block that arrives later is sent to a peer that no longer wants it")
 			}
 			c.Check(len(denials) > 0 && len(bad) == 0, "O4", "R-FLOW", name, "denials=>DONT_HAVE-only", sp.Pos(),
 				"denied entries reach only the DONT_HAVE task builder",
